@@ -63,11 +63,13 @@ def shards(tier):
         sh += [('Z', 'contranominal', k) for k in (3, 5, 7, 9, 10)]
         sh += [('Z', 'ordinal', k) for k in (40, 150)]
         sh += [('Z', 'nominal', 40)]
+        sh += space.g_shards(tier) + space.big_shards(tier) + [('LONG',)]
     else:
         sh = space.s_shards(12, chunk=128)
         sh += [('Z', 'contranominal', k) for k in range(1, 12)]
         sh += [('Z', 'ordinal', k) for k in (1, 2, 3, 10, 50, 100, 200, 300, 350, 400, 450, 500, 600)]
         sh += [('Z', 'nominal', k) for k in (10, 100, 1000)]
+        sh += space.g_shards(tier) + space.big_shards(tier) + [('LONG',)]
     return sh
 
 
@@ -387,6 +389,91 @@ def first_diff(a, b):
     return None, None
 
 
+def check_light(case, ctr):
+    """Bigger / structured tables (strata G and the big whole tables): one pass through
+    every persistence route, full observation vector against the recomputed lattice."""
+    import concepts
+    C = concepts.Context
+    V = []
+    fresh = case.fresh_ctx()
+    tables = len(case.ref.concepts) <= 12
+    ref_dg = digest(full_obs(fresh, tables))
+    d = fresh.todict()
+    if _norm(d) != _norm(ref_encoding(case)):
+        V.append(common.violation(ID, 'todict-encoding', case.ident(), None, None))
+        return V
+    k = len(d['lattice'])
+    half = {'objects': d['objects'], 'properties': d['properties'], 'context': d['context'],
+            'lattice': [(e, i, tuple(reversed(up)), tuple(reversed(lo))) for e, i, up, lo in d['lattice']]}
+    buf = io.StringIO()
+    fresh.tojson(buf)
+    routes = [
+        ('fromdict', lambda: C.fromdict(copy.deepcopy(d))),
+        ('fromdict-raw-reversed', lambda: C.fromdict(permute_dict(d, list(range(k))[::-1], True), raw=True)),
+        ('fromdict-raw-neighbours-reversed', lambda: C.fromdict(half, raw=True)),
+        ('fromjson', lambda: C.fromjson(io.StringIO(buf.getvalue()))),
+        ('python-literal-string', lambda: C.fromstring(fresh.tostring('python-literal'), 'python-literal')),
+        ('pickle-context', lambda: pickle.loads(pickle.dumps(fresh))),
+    ]
+    for name, fn in routes:
+        ctr['calls'] += 1
+        try:
+            c1 = fn()
+            ok = (c1 == fresh) and digest(full_obs(c1, tables)) == ref_dg
+            got = 'observation vector differs'
+        except Exception as e:
+            ok, got = False, f'{type(e).__name__}: {e}'
+        if not ok:
+            V.append(common.violation(ID, name, case.ident(), 'equivalent to the recomputed lattice', got))
+            return V
+    ctr['calls'] += 1
+    try:
+        lat = fresh.lattice
+        lat2 = pickle.loads(pickle.dumps(lat))
+        ok = digest(lattice_obs(lat2)) == digest(lattice_obs(lat))
+        got = 'observation vector differs'
+    except Exception as e:
+        ok, got = False, f'{type(e).__name__}: {e}'
+    if not ok:
+        V.append(common.violation(ID, 'pickle-lattice', case.ident(), 'equivalent lattice', got))
+    return V
+
+
+def run_long():
+    """Contexts whose label lines are long and whose labels contain blanks (the text
+    forms must not depend on line width)."""
+    import concepts
+    ctr = collections.Counter()
+    V = []
+    for n, m, word in ((8, 4, 'object number'), (12, 3, 'a b c d e f g'), (3, 12, 'x')):
+        objs = [f'{word} {i} of the table' for i in range(n)]
+        props = [f'property {j} with a rather long name' for j in range(m)]
+        for shift in range(3):
+            rows = [tuple((i + j + shift) % 3 == 0 for j in range(m)) for i in range(n)]
+            c = concepts.Context(objs[shift:] + objs[:shift], props, rows)
+            c.lattice
+            ref_dg = digest(full_obs(c))
+            info = {'long_labels': [n, m, word, shift]}
+            for name, fn in (
+                    ('python-literal-string', lambda: concepts.Context.fromstring(
+                        c.tostring('python-literal'), 'python-literal')),
+                    ('fromjson', lambda: _json_rt(c)),
+                    ('fromdict', lambda: concepts.Context.fromdict(c.todict())),
+                    ('pickle-context', lambda: pickle.loads(pickle.dumps(c)))):
+                ctr['calls'] += 1
+                try:
+                    c1 = fn()
+                    ok = (c1 == c) and digest(full_obs(c1)) == ref_dg
+                    got = 'differs'
+                except Exception as e:
+                    ok, got = False, f'{type(e).__name__}: {e}'
+                if not ok:
+                    V.append(common.violation(ID, name, info, 'equivalent context', got))
+            ctr['tables'] += 1
+            ctr['evaluations'] += 1
+    return {'counters': dict(ctr), 'violations': V[:3], 'samples': [], 'outcomes': []}
+
+
 # ---------------------------------------------------------------- size axis
 
 def run_size(shard, tier):
@@ -457,6 +544,10 @@ def run_shard(shard, tier):
         except Exception as e:
             return {'counters': {'evaluations': 1}, 'samples': [], 'outcomes': [],
                     'violations': [common.library_exception(ID, {'shard': list(shard)}, e)]}
+    if shard[0] == 'LONG':
+        return run_long()
+    if shard[0] in ('G', 'W'):
+        return e1.run_shard_generic(shard, tier, ID, check_light, both_labelings=False)
     Ctx.tmp = tempfile.mkdtemp(prefix='verif-c11-', dir='/var/tmp')
     Ctx.payloads = []
     Ctx.tier = tier
@@ -498,8 +589,22 @@ def main(tier):
 
 def replay(v):
     c = v['case']
+    if 'long_labels' in c:
+        return run_long()['violations']
     if 'family' in c:
         return run_size(('Z', c['family'], c['k']), 'quick')['violations']
+    if c.get('tag') and c['tag'][0] in ('G', 'W'):
+        import collections
+        for prev in c.get('after', ()):
+            if prev['tag'][0] in ('G', 'W'):
+                try:
+                    check_light(e1.case_from_ident(prev), collections.Counter())
+                except Exception:
+                    pass
+        try:
+            return check_light(e1.case_from_ident(c), collections.Counter())
+        except Exception as e:
+            return [common.library_exception(ID, c, e)]
     Ctx.tmp = tempfile.mkdtemp(prefix='verif-c11-', dir='/var/tmp')
     Ctx.payloads = []
     try:
